@@ -614,6 +614,29 @@ def run(prog, bits, a0=(5, 7)):
   return log, c.i, outcome
 
 
+def crosses_for_exit(a, log, var, act, t0, t1):
+  """True iff, in activation `act`, a `for` statement whose target binds `var` finished at a time in (t0, t1]:
+  the value of var travelled along the loop-exit edge of that header (recorded finding D1)."""
+  for time in range(t0 + 1, min(t1, len(log.ev) - 1) + 1):
+    e = log.ev[time]
+    if e[0] == 'x' and e[2] == act:
+      n = a.nodes[e[1]]
+      if isinstance(n, ast.For) and var in _stored(n.target):
+        return True
+  return False
+
+
+def analysis_error(src, e):
+  """Failure record for a crash of the analyses; `except E as name` is the recorded finding D6."""
+  try:
+    d6 = any(isinstance(n, ast.ExceptHandler) and n.name for n in ast.walk(ast.parse(src)))
+  except SyntaxError:
+    d6 = False
+  if d6:
+    return dict(kind='known-D6', sig='except-as-crashes-cfg', what='%s: %s' % (type(e).__name__, str(e)[:200]))
+  return dict(kind='analysis-error', sig=type(e).__name__, what='%s: %s' % (type(e).__name__, str(e)[:200]))
+
+
 def match_trees(a, p):
   """The two parses must number their nodes identically."""
   return len(a.nodes) == p.nnodes and all(type(n).__name__ == t for n, t in zip(a.nodes, p.node_types))
